@@ -81,6 +81,18 @@ func runC02(c *fw.Case) (o fw.Outcome) {
 		}
 	}
 	ch := genChoices(r, cfg.Reg)
+	if c.Idx%32 == 20 && !overflow && cfg.Reg > 0 {
+		// identifiers that are ZERO together: the IMSI ends in 0000 (the RAN-UE-NGAP-ID the emulator derives is 0) and the AMF
+		// assigns AMF-UE-NGAP-ID 0 - both legal values, not "unset"
+		cfg.IMSI = cfg.IMSI[:len(cfg.IMSI)-4] + "0000"
+		ch.AmfIDs[0] = 0
+		for i := 1; i < len(ch.AmfIDs); i++ {
+			if ch.AmfIDs[i] == 0 {
+				ch.AmfIDs[i] = int64(1000 + i)
+			}
+		}
+		o.Tag("both-ngap-ids-zero")
+	}
 	// one run in eight: the SMF REFUSES the session of one UE (a legal answer). That UE has not completed establishment:
 	// whether the emulator stops there or carries on, it must not start a service request or a release for it. Exit
 	// status and banner are not judged in these runs, only what reaches the AMF afterwards.
